@@ -434,6 +434,8 @@ pub fn i128_shifted_div_mod_floor(
     if x.is_negative() {
         if y.is_negative() {
             r = r.neg();
+        } else if r == 0 {
+            q = q.neg();
         } else {
             q = q.neg() - 1;
             r = y - r;
@@ -468,8 +470,12 @@ pub fn i256_div_mod_floor(
     // r < y, so r as i128 is safe.
     let mut r = r as i128;
     if x1.is_negative() != x2.is_negative() {
-        q = q.neg() - 1;
-        r = y - r;
+        if r == 0 {
+            q = q.neg();
+        } else {
+            q = q.neg() - 1;
+            r = y - r;
+        }
     }
     Some((q, r))
 }
